@@ -316,3 +316,36 @@ def compile_obligations(chk, name, head_src, obs, key_extra=None):
     if mod is None:
         raise Inconclusive('the %s template is still rejected after removing the failing functions:\n%s' % (prop, out[-1200:]))
     return mod, good, src, refs
+
+
+def compile_programs(prop, name, head_src, items):
+    """items: [(function name, source text)]. compiles head + all items (+ a main that references every function); when the
+    compiler rejects or crashes, bisects to the offending items. returns (module, full source without refs/main,
+    names compiled, [(name, source, compiler output)] not compiled)"""
+    def attempt(its, nm):
+        src = head_src + ''.join(t for _, t in its)
+        refs = 'refs :: () {\n' + '\n'.join('    r%d := %s;' % (i, n) for i, (n, _) in enumerate(its)) + '\n}\n'
+        mod, out = compile_module(prop, nm, src + refs + 'main :: () { refs(); }\n')
+        return mod, out, src
+    mod, out, src = attempt(items, name)
+    if mod is not None:
+        return mod, src, [n for n, _ in items], []
+    bad = []
+
+    def bisect(its):
+        m, o, _ = attempt(its, name + '_bisect')
+        if m is not None:
+            return
+        if len(its) == 1:
+            bad.append((its[0][0], its[0][1], o)); return
+        h = len(its) // 2
+        bisect(its[:h]); bisect(its[h:])
+    bisect(items)
+    if not bad:
+        raise Inconclusive('the %s programs are rejected together but each compiles alone:\n%s' % (prop, out[-1200:]))
+    badnames = {b[0] for b in bad}
+    good = [it for it in items if it[0] not in badnames]
+    mod, out, src = attempt(good, name)
+    if mod is None:
+        raise Inconclusive('the %s programs are still rejected after removing the failing ones:\n%s' % (prop, out[-1200:]))
+    return mod, src, [n for n, _ in good], bad
